@@ -354,6 +354,18 @@ def r3_3(rep):
                           "bitfield_int_ty is integer_type(layout of the bit-field's own type) (found %s)" % src[:160], b.loc(n))
 
 
+def realign_sites(al):
+    """assignments `x = align_to(x, align_of(type) * 8)` in the allocation function (found by shape, not by name)"""
+    out = []
+    for n in al.walk():
+        if n["k"] in ("Assign", "Let"):
+            r = strip(n.get("r") or n.get("init") or {})
+            if r.get("k") == "Call" and (r.get("callee") or "").endswith("align_to") and len(r["args"]) == 2 and \
+                    "Layout::align" in al.canon(r["args"][1], 8) and "lit:8" in al.canon(r["args"][1], 8):
+                out.append(n)
+    return out
+
+
 @RULES.rule("R3.4", "bit-field units are allocated with the same notion of `packed` that lays out the struct", floor=5)
 def r3_4(rep):
     """`#pragma pack(2)` makes `is_packed` true although there is no packed attribute and align != 1; if unit allocation
@@ -377,7 +389,7 @@ def r3_4(rep):
             rep.check("param:packed" in args, "packed-threaded:%s" % callee.split("::")[-1],
                       "`packed` is handed on unchanged (args %s)" % args, b.loc(c))
     al = rep.need(prog.fn("ir::comp::bitfields_to_allocation_units"), "bitfields_to_allocation_units")
-    realign = [n for n in al.walk() if n["k"] == "Assign" and strip(n["l"]).get("name") == "offset_in_struct"]
+    realign = realign_sites(al)
     rep.check(bool(realign) and all(qq.has_atom(qq.guard_atoms(al, n), "param:packed", False) for n in realign), "realign-only-unpacked",
               "clang's offset is overridden by the overflow realignment only for non-packed structs", al.loc(al.root))
     # the struct layout side uses the same predicate
@@ -396,12 +408,13 @@ def r3_5(rep):
     from c02 import lin
     prog = rep.prog
     al = rep.need(prog.fn("ir::comp::bitfields_to_allocation_units"), "bitfields_to_allocation_units")
-    realign = [n for n in al.walk() if n["k"] == "Assign" and strip(n["l"]).get("name") == "offset_in_struct"]
-    rep.need(realign, "the realignment of offset_in_struct")
+    realign = realign_sites(al)
+    rep.need(realign, "the realignment `x = align_to(x, align * 8)`")
     for n in realign:
-        r = strip(n["r"])
-        ok = r.get("k") == "Call" and (r.get("callee") or "").endswith("align_to") and len(r["args"]) == 2 and \
-            strip(r["args"][0]).get("name") == "offset_in_struct" and "Layout::align" in al.canon(r["args"][1], 8) and "lit:8" in al.canon(r["args"][1], 8)
+        r = strip(n.get("r") or n.get("init"))
+        target = strip(n["l"]) if n["k"] == "Assign" else {"name": n["pat"].get("name")}
+        offname = strip(r["args"][0]).get("name")
+        ok = offname is not None and offname == target.get("name")
         rep.check(ok, "realign-to-type-alignment", "the field is moved to align_to(offset, align_of(type) * 8) (found %s)" % al.canon(r, 5)[:120], al.loc(n))
         # the condition: a disjunction containing `width == 0` and the straddle test
         conds = [g for p, k, g in al.guards(n) if k == "cond" and p]
@@ -434,7 +447,7 @@ def r3_5(rep):
         pos = sorted(k for k, v in form.items() if v == 1)
         neg = sorted(k for k, v in form.items() if v == -1)
         shape = len(form) == 3 and len(pos) == 2 and len(neg) == 1
-        m = [k for k in pos if "&" in k and "offset_in_struct" in k and "align" in k]
+        m = [k for k in pos if "&" in k and ("local:%s" % offname) in k and "align" in k]
         w = [k for k in pos if "bitfield_width" in k and "&" not in k]
         s = [k for k in neg if "size" in k and "8" in k and "*" in k]
         rep.check(shape and len(m) == 1 and len(w) == 1 and len(s) == 1, "straddle-test-terms",
